@@ -17,19 +17,23 @@ struct HeapItem {
 
 impl PartialEq for HeapItem {
     fn eq(&self, other: &Self) -> bool {
-        self.context_id == other.context_id
+        self.cmp(other) == std::cmp::Ordering::Equal
     }
 }
 impl Eq for HeapItem {}
 
 impl PartialOrd for HeapItem {
     fn partial_cmp(&self, other: &Self) -> Option<std::cmp::Ordering> {
-        Some(self.context_id.cmp(&other.context_id))
+        Some(self.cmp(other))
     }
 }
 impl Ord for HeapItem {
+    // Ties on the context id are broken by the cursor index: cursors are loaded in
+    // (segment label, zone id) order, so rows of one context leave in input (append) order.
     fn cmp(&self, other: &Self) -> std::cmp::Ordering {
-        self.context_id.cmp(&other.context_id)
+        self.context_id
+            .cmp(&other.context_id)
+            .then_with(|| self.cursor_index.cmp(&other.cursor_index))
     }
 }
 
